@@ -391,7 +391,7 @@ def lloyd_aggregation(C, ratio=0.1, measure='unit', maxiter=5):
     elif measure == 'unit':
         data = np.ones_like(C.data).astype(float)
     elif measure == 'min':
-        data = C.data - C.data.min()
+        data = C.data - C.data.min() if C.nnz > 0 else C.data
     else:
         raise ValueError(f'Unrecognized value measure={measure}')
 
@@ -530,7 +530,7 @@ def balanced_lloyd_aggregation(C, ratio=0.1, measure=None, maxiter=5,
     elif measure == 'unit':
         data = np.ones_like(C.data).astype(float)
     elif measure == 'min':
-        data = C.data - C.data.min()
+        data = C.data - C.data.min() if C.nnz > 0 else C.data
     else:
         raise ValueError(f'Unrecognized value measure={measure}')
 
